@@ -5,6 +5,8 @@ From TS Require Import Model.TopsortAlgo Model.Topsort Model.Lang.Common.
 From TS Require Import Model.Lang.TypeScript Model.Lang.Kotlin Model.Lang.Swift Model.Lang.Scala Model.Lang.Go Model.Lang.Python.
 From TS Require Import Spec.Lexers Spec.C15Spec Spec.C15Render.
 From TS Require Proofs.C15_Front Proofs.C15_Replace Proofs.C15 Proofs.C15_Render Proofs.C15_Kotlin Proofs.C15_Go Proofs.C15_Swift Proofs.C15_Python Proofs.C15_TypeScript.
+From TS Require Import Spec.C15RenderScPy.
+From TS Require Proofs.C15_ScalaItem.
 Import ListNotations.
 From TS Require Props.C15.
 
@@ -262,3 +264,42 @@ Goal forall (cfg : kt_config),
     c15_contained C15kt LCode (mark (c15_file_pieces C15kt parts)) = true.
 Proof. exact Props.C15.C15_kt_item_line_free. Qed.
 Print Assumptions Props.C15.C15_kt_item_line_free.
+Goal forall d : sc_decl,
+  c15_sc_decl_plain d = true ->
+  exists parts,
+    sc_render_decl d = text_of (c15_file_pieces C15sc parts) /\
+    docs_of (c15_file_pieces C15sc parts) = Proofs.C15.sc_decl_docs d /\
+    c15_contained C15sc LCode (mark (c15_file_pieces C15sc parts)) = forallb safe_sc (Proofs.C15.sc_decl_docs d).
+Proof. exact Props.C15.C15_sc_decl. Qed.
+Print Assumptions Props.C15.C15_sc_decl.
+Goal forall (cfg : sc_config),
+  c15_mappings_plain C15sc (sc_type_mappings cfg) = true ->
+  forall it text,
+  c15_item_strict C15sc Scala it = true ->
+  sc_write_item cfg it = Ok text ->
+  exists parts,
+    text = text_of (c15_file_pieces C15sc parts) /\
+    docs_of (c15_file_pieces C15sc parts) = c15_item_docs_helpers_first it /\
+    c15_contained C15sc LCode (mark (c15_file_pieces C15sc parts)) =
+    forallb safe_sc (c15_item_docs_helpers_first it).
+Proof. exact Props.C15.C15_sc_item. Qed.
+Print Assumptions Props.C15.C15_sc_item.
+Goal forall (cfg : sc_config),
+  c15_mappings_plain C15sc (sc_type_mappings cfg) = true ->
+  forall it ds,
+  c15_item_strict C15sc Scala it = true ->
+  sc_decl_of cfg it = Ok ds -> forallb c15_sc_decl_plain ds = true.
+Proof. exact Props.C15.C15_sc_item_decls_plain. Qed.
+Print Assumptions Props.C15.C15_sc_item_decls_plain.
+Goal forall (cfg : sc_config),
+  c15_mappings_plain C15sc (sc_type_mappings cfg) = true ->
+  forall it text,
+  c15_item_strict C15sc Scala it = true ->
+  Forall (fun d => safe_line eol_lf_cr d = true) (c15_item_docs it) ->
+  sc_write_item cfg it = Ok text ->
+  exists parts,
+    text = text_of (c15_file_pieces C15sc parts) /\
+    docs_of (c15_file_pieces C15sc parts) = c15_item_docs_helpers_first it /\
+    c15_contained C15sc LCode (mark (c15_file_pieces C15sc parts)) = true.
+Proof. exact Props.C15.C15_sc_item_line_free. Qed.
+Print Assumptions Props.C15.C15_sc_item_line_free.
